@@ -296,7 +296,16 @@ def r_once(db, rep):
                      "workers are stored by value: growing the vector moves a Worker while its thread uses `this`", "WorkerPool")
 
 
+_ROLES = {}
+
+
 def roles(db):
+    if id(db) not in _ROLES:
+        _ROLES[id(db)] = _roles(db)
+    return _ROLES[id(db)]
+
+
+def _roles(db):
     run = db.fn("Worker::run")
     wclo = set(db.closure([run]))
     # tasks: every lambda passed to WorkerPool::add_task
